@@ -104,6 +104,11 @@ def py_stmts(body):
         if isinstance(st,ast.Assign):
             t=st.targets[0]
             if isinstance(t,ast.Name): out.append(Assign(t.id,py_expr(st.value)))
+            elif isinstance(t,ast.Subscript) and isinstance(t.slice,ast.Slice) and t.slice.step is None and t.slice.lower is not None and t.slice.upper is not None:
+                # a[lo:hi] = v  ==  k = lo; while k < hi: a[k] = v; k += 1
+                k='__sl%d'%len(out)
+                out.append(Assign(k,py_expr(t.slice.lower)))
+                out.append(While(('cmp','<',('var',k),py_expr(t.slice.upper)),[Store(py_expr(t.value),('var',k),py_expr(st.value)),Assign(k,('bin','+',('var',k),('num',1)))]))
             elif isinstance(t,ast.Subscript): out.append(Store(py_expr(t.value),py_expr(t.slice),py_expr(st.value)))
             else: raise NotImplementedError
         elif isinstance(st,ast.AugAssign):
